@@ -32,6 +32,7 @@ func main() {
 		"the scripted log follows dragonboat v4 LogReader.Entries: size-limited prefix, at least one entry, ErrCompacted at/below the marker, ErrUnavailable above last+1",
 		"range ends are applied+1 of a call and applied <= last persisted index (dragonboat persists before it applies), so the reader is never asked beyond last+1",
 		"ShardCache.LogCompacted is delivered asynchronously in production (dragonboat system-event goroutine, then regatta's events channel): between a compaction and that delivery the cached reader may still serve the unchanged entries below the new first index; after the delivery it must answer ErrLogAhead/USE_SNAPSHOT",
+		"layer 2 learns that the cache was emptied from the engine's own event log (the line dispatchEvents writes before handling logCompacted, confirmed by the next event line), never from elapsed time",
 		"layer 2 samples log range and applied index before and after every call; where a compaction or a proposal crosses the requested index during the call both outcomes are accepted",
 		"request index 0: only 'no commands are streamed' is judged (InvalidArgument observed)")
 	rep := &reporter{r: r, seen: map[string]int{}}
@@ -97,6 +98,7 @@ func main() {
 	r.FloorCount("l2_expect_use_snapshot", int64(r.Pick(100, 1000)))
 	r.FloorCount("l2_expect_leader_behind", int64(r.Pick(20, 200)))
 	r.FloorCount("l2_expect_empty_at_applied_plus_1", int64(r.Pick(10, 100)))
+	r.FloorCount("l2_logcompacted_events_seen", int64(r.Pick(4, 40))) // the event hook must be alive, else layer 2 is lenient below the first index
 	r.FloorDistinct("l1_cache_size", 5)
 	r.Finish()
 }
